@@ -79,6 +79,18 @@ pub struct CheckDef {
     pub assumptions: &'static [&'static str],
 }
 
+static INTERN: Mutex<BTreeMap<String, &'static str>> = Mutex::new(BTreeMap::new());
+/// probe names built at run time (bounded set): interned to &'static str
+pub fn intern(s: &str) -> &'static str {
+    let mut m = INTERN.lock().unwrap();
+    if let Some(v) = m.get(s) {
+        return v;
+    }
+    let l: &'static str = Box::leak(s.to_string().into_boxed_str());
+    m.insert(s.to_string(), l);
+    l
+}
+
 thread_local! {
     static LAST_PANIC: RefCell<String> = RefCell::new(String::new());
     static IN_GUARD: std::cell::Cell<bool> = std::cell::Cell::new(false);
@@ -322,6 +334,10 @@ pub struct RunOpts {
     pub threads: usize,
     pub runs_override: Option<u64>,
     pub quiet: bool,
+    /// write the evidence JSON here instead of <root>/evidence/<id>.json (control builds)
+    pub control_out: Option<String>,
+    /// evidence JSON of the positive-control build to validate against (C17)
+    pub control_in: Option<String>,
 }
 
 struct Acc {
@@ -621,6 +637,43 @@ pub fn run_check(def: &CheckDef, opts: &RunOpts) -> i32 {
         }
     }
 
+    // positive control (C17): the build without zeroize must have left residue for every type
+    let mut control_summary = J::Null;
+    if def.id == "C17" && opts.control_out.is_none() {
+        match opts.control_in.as_ref().map(|p| std::fs::read_to_string(p).map_err(|e| e.to_string()).and_then(|s| J::parse(&s))) {
+            Some(Ok(cj)) => {
+                let probes = cj.get("coverage").and_then(|c| c.get("reach_probes")).cloned().unwrap_or(J::obj());
+                let mut blind = Vec::new();
+                for want in crate::checks::c17::control_expectations() {
+                    if probes.get(&want).and_then(|v| v.u64()).unwrap_or(0) == 0 {
+                        blind.push(want);
+                    }
+                }
+                if !blind.is_empty() {
+                    println!("HARNESS-ERROR: positive control found no residue for {:?}: the scanner is blind for these types", blind);
+                    if exit == 0 {
+                        exit = 2;
+                    }
+                }
+                control_summary = J::obj()
+                    .with("build", J::s("same scenarios, crate features zeroize OFF"))
+                    .with("evaluations", cj.get("coverage").and_then(|c| c.get("evaluations")).cloned().unwrap_or(J::Null))
+                    .with("probes", probes);
+            }
+            Some(Err(e)) => {
+                println!("HARNESS-ERROR: control evidence unreadable: {}", e);
+                if exit == 0 {
+                    exit = 2;
+                }
+            }
+            None => {
+                println!("HARNESS-ERROR: C17 needs the positive-control run (use ./vcheck C17 <tier>)");
+                if exit == 0 {
+                    exit = 2;
+                }
+            }
+        }
+    }
     let wall = t0.elapsed().as_secs_f64();
     // evidence
     let mut samples: Vec<J> = acc.samples.iter().take(5).map(|s| s.1.clone()).collect();
@@ -665,7 +718,8 @@ pub fn run_check(def: &CheckDef, opts: &RunOpts) -> i32 {
         .with("block_sizes", J::O(acc.sizes.iter().map(|(k, v)| (k.to_string(), J::U(*v as u128))).collect()))
         .with("components", J::s(def.components))
         .with("known_findings_reproduced", J::O(known_hits.iter().map(|(k, v)| (k.clone(), J::U(*v as u128))).collect()))
-        .with("violations_reported", J::A(reported));
+        .with("violations_reported", J::A(reported))
+        .with("positive_control", control_summary);
     let ev = J::obj()
         .with("property_id", J::s(def.id))
         .with("tier", J::s(tier))
@@ -677,7 +731,7 @@ pub fn run_check(def: &CheckDef, opts: &RunOpts) -> i32 {
         .with("violations", J::U(violations as u128));
     let evdir = format!("{}/evidence", opts.root);
     let _ = std::fs::create_dir_all(&evdir);
-    let evpath = format!("{}/{}.json", evdir, def.id);
+    let evpath = opts.control_out.clone().unwrap_or_else(|| format!("{}/{}.json", evdir, def.id));
     if let Err(e) = std::fs::write(&evpath, ev.pretty()) {
         println!("HARNESS-ERROR: cannot write evidence {}: {}", evpath, e);
         return 2;
